@@ -26,3 +26,10 @@ package json
 //@   assert before "return ast.Record(nodes), nil" key_order: forall a int, b int :: (0 <= a && a < b && b < len(nodes)) ==> strLess(string(nodes[a].Key), string(nodes[b].Key))
 //@   loop 1
 //@     invariant len(nodes) == $i && (forall m int :: (0 <= m && m < $i) ==> string(nodes[m].Key) == keys[m])
+
+// An extension call node is decoded from an object with exactly one entry; with more than one the
+// entry the Go map yields last would decide which call is built (C14).
+//@ func (extensionJSON) ToNode
+//@   props C14 C10
+//@   results node, err
+//@   ensures single_entry: err == nil ==> len(e) == 1
